@@ -188,15 +188,20 @@ func continueFromOlder(c *fw.Ctx, x *v2History, cfg v2cfg, dir string, t int64, 
 // runBigPrune: a prune with a large backlog (3000 keys, versions of 300 updates) is requested and the
 // history goes on at once, without waiting for the background pruning. Kind B (most cases): the
 // request is filed after version 15 and the very next commit, 16, is a checkpoint (interval 5), so
-// that the checkpoint save interrupts the running prune; kind A (thorough tier only): filed after
+// that the checkpoint save interrupts the running prune; kind A (the fourth of every four): filed after
 // version 11, five more commits follow at once. Afterwards (pruning drained, one more commit, closed
 // and reopened) the checkpoint at the prune point, every later version and the latest version must
 // reload exactly. Whether the prune was still running when the checkpoint was saved is observed (root
 // rows below the target still present right after that commit) and counted.
 func runBigPrune(c *fw.Ctx) {
 	rng := c.Rng
+	// (eviction depth 4 in the sharded cases: the caller keeps reading branch nodes from SQLite - and
+	// resolving their shard - while the writer goroutine prunes)
 	cfg := v2cfg{5, int8(c.Index / 32 % 2), -1, c.Index/64%2 == 1}
-	kindA := c.Index/128%2 == 1
+	if cfg.Shard && c.Index/256%2 == 1 {
+		cfg.Evict = 4
+	}
+	kindA := c.Index/32%4 == 3
 	before, after := 15, 1
 	if kindA {
 		before, after = 11, 5
@@ -258,6 +263,21 @@ func runBigPrune(c *fw.Ctx) {
 		c.Violate(11, "v2p|big-prune|error", "DeleteVersionsTo(11): %v", err)
 		h.close()
 		return
+	}
+	if kindA {
+		// reads of the whole key space while the prune runs in the background
+		snap := x.M.Vers[x.M.Latest]
+		for round := 0; round < 2; round++ {
+			for _, k := range x.universe {
+				got, err := h.tree.Get(k)
+				if want, ok := snap[string(k)]; err != nil || !ok || string(got) != want {
+					c.Violate(11, "v2p|big-prune|get-while-pruning", "Get(%q)=(%q,%v) while the prune runs in the background, the model says %q", k, got, err, want)
+					h.close()
+					return
+				}
+			}
+		}
+		c.Obs("v2_reads_while_a_big_prune_runs", 2*len(x.universe))
 	}
 	// the history goes on at once, across the next checkpoint (16)
 	if !commitN(after, false) {
@@ -439,7 +459,7 @@ func init() {
 		Rule: "case = one normal-form history (5-14 versions incl. empty versions and commits without writes; 1-10 keys) (every 4th case: 32 keys written once, then versions touching one hot key plus removals of keys that are not there) written by a v2 tree over on-disk SQLite (checkpoint interval from {1,2,3,7}, HeightFilter{0,1}, EvictionDepth{-1,1,8}, ShardTrees{off,on}; combination = case index mod 48) and then closed. " +
 			"(reload) for EVERY version t the database is reopened by a fresh tree and LoadVersion(t) must succeed with Version()=t, the root hash returned at commit, Size, Get of every probe key and full iteration equal to the model of t - targets fall on, just after and far after a checkpoint (the root table tells which; counted per class). (continue-older) for a random older version t (and an older version with an empty tree, if any) a copy of the store is reopened at t and the recorded write sets of t+1..latest are applied again: every commit must return the version number and hash of the uninterrupted run. (continue) from the reloaded latest version 2-3 further write sets are committed and every hash must equal the reference tree continuing the uninterrupted history; then the continued store is reloaded again. " +
 			"(prune) on a copy of the store DeleteVersionsTo(n) for a random n is issued, the harness waits (bounded polling of the root table; not draining within the bound is INCONCLUSIVE, not a violation) and commits one more version, closes and reopens: the latest version and every version at or above the last checkpoint not after n must load with the right hash and contents. (snapshot) SaveSnapshot at the latest version, then LoadSnapshot(version, PreOrder) on a fresh tree: root hash and contents must equal the source version. (locked commit, every 2nd case) one further version is committed while a second SQLite connection holds the write lock of changelog.sqlite or tree.sqlite: if SaveVersion acknowledges the commit the version must reload exactly after close and reopen (if it reports the failure only the earlier versions are checked). " +
-			"(big prune, every 32nd case) 3000 keys, versions of 300 updates, checkpoint interval 5, HeightFilter{0,1} x ShardTrees{off,on}: DeleteVersionsTo(11) is filed after version 15 and the history goes on at once with version 16 - a checkpoint, whose save interrupts the prune that is still running (observed and counted through the root rows below the target that are still present right after that commit; thorough tier also: filed after version 11, five commits at once) - then pruning drains, one more commit, close, reopen: versions 11, 12, 14, 15, 16, 17 must reload with the right hash and all 3000 values; the process must survive the overlap. " +
+			"(big prune, every 32nd case) 3000 keys, versions of 300 updates, checkpoint interval 5, HeightFilter{0,1} x ShardTrees{off,on}: DeleteVersionsTo(11) is filed after version 15 and the history goes on at once with version 16 - a checkpoint, whose save interrupts the prune that is still running (observed and counted through the root rows below the target that are still present right after that commit; in one of four: filed after version 11, then two reads of all keys and five commits at once) - then pruning drains, one more commit, close, reopen: versions 11, 12, 14, 15, 16, 17 must reload with the right hash and all 3000 values; the process must survive the overlap. " +
 			"distinct = hash(options, write sets); non-trivial = >=1 reload of a non-checkpoint version and >=1 continued commit.",
 		Assumptions: []string{"M and R as oracles; the root table is read directly (read-only SQLite connection) to classify load targets and to detect the end of background pruning", "continuation is judged from the latest version (re-committing an existing v2 version is not part of the property)"},
 		Run: func(c *fw.Ctx) {
@@ -812,4 +832,3 @@ func rootHashOf(n *iavl2.Node) []byte {
 	}
 	return n.GetHash()
 }
-
